@@ -32,6 +32,7 @@ type Obligation struct {
 	Goal   string
 	Pos    string
 	Extra  []string // extra declarations/assertions local to this obligation
+	TimeoutMs int     // per-obligation solver budget override (0: tier default)
 	Batch  string     // obligations with the same batch key share one incremental solver run
 	localSlice bool   // (solver driver) build the query with the aggressive local slice
 	noLocal   bool
